@@ -391,6 +391,45 @@ pub fn run_all(rounds: u64) -> Vec<String> {
       atom.1 += 1;
     }
   }
+  // 18. release points: with them a try_lock can find a mutex still held after the holder
+  //     finished its critical section's work; without them it cannot
+  for on in [false, true] {
+    crate::set_release_points(on);
+    let mut seen = 0u32;
+    for r in 1..rounds.max(2) {
+      let hit = std::sync::Arc::new(std::sync::atomic::AtomicBool::new(false));
+      let h2 = hit.clone();
+      let o = run(cfg(Some((r, 30))), move || {
+        let m = Arc::new(Mutex::new(0u32));
+        let written = std::sync::Arc::new(std::sync::atomic::AtomicBool::new(false));
+        let (m2, w2) = (m.clone(), written.clone());
+        let h = thread::spawn(move || {
+          let mut g = m2.lock().unwrap();
+          *g = 1;
+          w2.store(true, std::sync::atomic::Ordering::SeqCst);
+          drop(g);
+        });
+        let held = m.try_lock().is_err();
+        if held && written.load(std::sync::atomic::Ordering::SeqCst) {
+          h2.store(true, std::sync::atomic::Ordering::SeqCst);
+        }
+        h.join().unwrap();
+      });
+      if o.kind != Kind::Done {
+        fails.push(format!("release-points({}): {}", on, o.describe()));
+      }
+      if hit.load(std::sync::atomic::Ordering::SeqCst) {
+        seen += 1;
+      }
+    }
+    if !on && seen > 0 {
+      fails.push(format!("release-points(off): a held-after-write state was seen {} times", seen));
+    }
+    if on && rounds >= 50 && seen == 0 {
+      fails.push("release-points(on): the held-after-write state was never reached".into());
+    }
+  }
+  crate::set_release_points(false);
   if rounds >= 50 {
     if atom.0 == 0 || atom.1 == 0 {
       fails.push(format!("atomic-spin: schedules not diverse: lost={} kept={}", atom.0, atom.1));
